@@ -9,7 +9,7 @@ From SV Require Import Num.Mod360 Num.Mod360Proofs Num.AngleSites Num.AngleSites
                        Num.Dec6 Num.Dec6Proofs Num.Dec6CarveProofs Num.VecText Num.VecTextProofs Num.VecTextFloat
                        Num.AngleText Num.AngleTextProofs Num.SpecStrip Num.SpecStripProofs
                        SM.FrozenOps SM.FrozenOpsProofs SM.FrozenCopy SM.FrozenCopyProofs SM.FrozenCopyValue SM.FrozenCopyValueProofs
-                       SM.FrozenHash SM.FrozenHashProofs.
+                       SM.FrozenHash SM.FrozenHashProofs SM.FrozenEq SM.FrozenEqProofs.
 Import ListNotations.
 
 Record c05_source := {
@@ -22,16 +22,23 @@ Record c05_source := {
   s_shapes : list copy_entry;               (* slot transfer of the copy-like methods *)
   s_hash : list hash_row;
   s_inplace : list inplace_row;
+  s_eq : list eq_row;                       (* per-slot comparisons of __eq__ per family (round 5) *)
+  s_shared : list (string * string * string); (* state kept between calls besides the objects: (function, kind, name) (round 5) *)
   s_fmt : fmt_cfg;                          (* format_float *)
   s_parse : parse_cfg;                      (* parse_vec_str *)
   s_vspec : spec_cfg;                       (* Vec.__format__ *)
   s_aspec : spec_cfg                        (* Angle.__format__ *)
 }.
 
+(** The frame, copy and hash models have one kind of state, the objects themselves.  That is adequate for histories of calls
+    only if the source keeps nothing else from one call to the next (a cache, an interning table, a class attribute written
+    by a method): the census of such places must be empty. *)
+Definition no_shared_state (l : list (string * string * string)) : bool := match l with [] => true | _ :: _ => false end.
+
 Definition c05_source_ok (s : c05_source) : bool :=
   all_sites_safe (s_sites s) && all_creations_ok (s_creations s) && ctor_table_ok (s_ctors s) (s_ctor_rows s)
   && table_ok (s_events s) no_carve && copy_results_ok (s_results s) && no_copy_events (s_events s)
-  && copy_shapes_ok (s_shapes s) && hash_table_ok (s_hash s) && inplace_ok (s_inplace s)
+  && copy_shapes_ok (s_shapes s) && hash_table_ok (s_hash s) && inplace_ok (s_inplace s) && eq_table_ok (s_eq s) && no_shared_state (s_shared s)
   && cfg_base_ok (s_fmt s) && zero_sign_ok (s_fmt s) && pcfg_ok (s_parse s)
   && spec_cfg_ok (s_vspec s) && spec_cfg_ok (s_aspec s).
 
@@ -59,11 +66,18 @@ Section Whole.
       Forall (fun x => recv (fst (fst x)) <> i) h -> nth_error (FrozenOps.run V (s_events s) h st) i = Some r.
   Definition whole_hash : Prop :=
     forall (V X H : Type) (get : V -> string -> X) (hf : list X -> H) (ident : nat -> H),
-      (forall c a b i j, same_value V X get c a b ->
+      (forall c a b i j, frozen_class c = true -> same_value V X get c a b ->
          hash_of V X H get hf ident (s_hash s) i (c, a) = hash_of V X H get hf ident (s_hash s) j (c, b)) /\
       (forall h st i r, good_history V (s_events s) no_carve h st -> nth_error st i = Some r -> frozen_class (fst r) = true ->
          exists r', nth_error (FrozenOps.run V (s_events s) h st) i = Some r' /\
                     hash_of V X H get hf ident (s_hash s) i r' = hash_of V X H get hf ident (s_hash s) i r).
+  (** the only state a history of calls can carry is the objects themselves (adequacy of the register models below) *)
+  Definition whole_no_hidden_state : Prop := s_shared s = [].
+  (** == on two objects of one family whose slots hold the same finite values (rationals) answers True: with the copy-value
+      clause below, "a copy compares equal to its source" (round 5: the == table is part of the source record) *)
+  Definition whole_eq : Prop :=
+    forall fam l, In (fam, l) (s_eq s) -> forall a b : string -> QArith_base.Q,
+      (forall sl, In sl (family_slots fam) -> QArith_base.Qeq (a sl) (b sl)) -> eq_eval l a b = true.
   (** a copy has the promised class and the value of its source *)
   Definition whole_copy_value : Prop :=
     (forall c m rc sh, In (c, m, rc, sh) (s_shapes s) -> rc = result_class c m) /\
@@ -114,18 +128,20 @@ Section Whole.
       (forall t, dot_outside k = false \/ (forall p, t <> (p ++ [46%N])%list) -> ss_has 101 t = true \/ ss_has 69 t = true -> spec_post k t = t).
 
   Theorem c05_whole :
-    whole_range /\ whole_ctor /\ whole_frozen /\ whole_independent /\ whole_hash /\ whole_copy_value /\
+    whole_range /\ whole_ctor /\ whole_no_hidden_state /\ whole_frozen /\ whole_independent /\ whole_hash /\ whole_eq /\ whole_copy_value /\
     whole_text_shape /\ whole_angle_roundtrip /\ whole_vec_roundtrip /\ whole_format_spec.
   Proof.
     split_ok.
     repeat match goal with |- _ /\ _ => split end.
     - unfold whole_range. apply angle_range_invariant. assumption.
     - unfold whole_ctor. apply ctor_range. assumption.
+    - unfold whole_no_hidden_state. destruct (s_shared s); [reflexivity|discriminate].
     - intros V h. apply frozen_registers_stable. assumption.
     - intros V h. apply non_receiver_stable. assumption.
     - intros V X HT get hf ident. split.
       + apply hash_same_value. assumption.
       + apply frozen_hash_stable. assumption.
+    - unfold whole_eq. apply eq_same_value. assumption.
     - unfold whole_copy_value. split; [|split].
       + apply copy_result_class. assumption.
       + apply copy_value_equal_exact. assumption.
@@ -152,7 +168,12 @@ Example c05_source_ok_satisfiable :
                    s_events := []; s_results := []; s_shapes := [];
                    s_hash := [("Vec", HUnhashable); ("FrozenVec", HSlots ["_x"; "_y"; "_z"]); ("Angle", HUnhashable);
                               ("FrozenAngle", HSlots ["_pitch"; "_yaw"; "_roll"]); ("Matrix", HUnhashable); ("FrozenMatrix", HUnhashable)]%string;
-                   s_inplace := [("Vec", "__iadd__")]%string; s_fmt := cfg_pinned;
+                   s_inplace := [("Vec", "__iadd__")]%string;
+                   s_eq := [("VecBase"%string, map (fun sl => (sl, CTol true (QArith_base.Qmake 1 1000000))) (family_slots "VecBase"));
+                            ("AngleBase"%string, map (fun sl => (sl, CTol false (QArith_base.Qmake 1 1000000))) (family_slots "AngleBase"));
+                            ("MatrixBase"%string, map (fun sl => (sl, CExact)) (family_slots "MatrixBase"))];
+                   s_shared := [];
+                   s_fmt := cfg_pinned;
                    s_parse := {| strips_ws := true; opens := [40]%N; closes := [41]%N; splits_ws := true; uses_float := true |};
                    s_vspec := cfg_guarded; s_aspec := cfg_guarded |} = true.
 Proof. vm_compute. reflexivity. Qed.
